@@ -40,6 +40,9 @@ class _Rewrite(ast.NodeTransformer):
                                                            [ast.Call(ast.Name('int', ast.Load()), [lo], []),
                                                             ast.Call(ast.Name('int', ast.Load()), [hi], [])], []), [], 0)])
                 return ast.Call(ast.Name('all' if f == 'forall' else 'any', ast.Load()), [gen], [])
+            if f == 'same_loc' and any(isinstance(x, ast.Call) and isinstance(x.func, ast.Name) and x.func.id == 'old'
+                                       for a in n.args for x in ast.walk(a)):
+                return ast.Constant(True)      # identity with the pre-state object: decided deductively only
             if f == 'old':
                 self.in_old += 1
                 inner = self.visit(n.args[0])
@@ -73,7 +76,28 @@ def _xor1(a, b):
     return (np.asarray(a) + np.asarray(b)) % 2
 
 
-_HELPERS = {'rows': _rows, 'cols': _cols, 'implies': _implies, 'iff': _iff, 'same': _same, 'eq1': _same,
+def _arrays(o, depth=0):
+    if isinstance(o, np.ndarray):
+        return [o]
+    out = []
+    if depth > 4 or o is None:
+        return out
+    if isinstance(o, (list, tuple)):
+        for x in o:
+            out += _arrays(x, depth + 1)
+    elif hasattr(o, '__dict__'):
+        for v in vars(o).values():
+            out += _arrays(v, depth + 1)
+    return out
+
+
+def _same_loc(a, b):
+    if isinstance(a, np.ndarray) and isinstance(b, np.ndarray):
+        return a is b or (a.shape == b.shape and a.size > 0 and np.shares_memory(a, b))
+    return a is b
+
+
+_HELPERS = {'same_loc': _same_loc, 'fresh_loc': lambda x: True, 'rows': _rows, 'cols': _cols, 'implies': _implies, 'iff': _iff, 'same': _same, 'eq1': _same,
             'b2i': lambda x: int(bool(x)), 'cmul': lambda a, b: a * b, 'len': len, 'min': min, 'max': max, 'abs': abs,
             'all': all, 'any': any, 'range': range, 'int': int, 'bool': bool, 'xor1': _xor1}
 
@@ -128,6 +152,7 @@ def check_call(ev, contract, func, args, check_frame=True):
         except Exception as e:      # a requires that cannot be evaluated on this input: treat as not satisfied
             return 'skip', '%s (%s)' % (r, e)
     call_args = [_clone(args[k]) for k in names]
+    inputs = _arrays(call_args)      # arrays reachable from the arguments before the call
     exc = None
     try:
         result = func(*call_args)
@@ -145,6 +170,7 @@ def check_call(ev, contract, func, args, check_frame=True):
             return 'fail', 'raises.%s: should have raised' % name
     env1 = dict(zip(names, call_args))
     env1['result'] = result
+    env1['fresh_loc'] = lambda x: not any(isinstance(x, np.ndarray) and x.size and a.size and np.shares_memory(x, a) for a in inputs)
     for k, e in enumerate(contract.ensures):
         try:
             ok = bool(ev.eval(e, env1, env0))
@@ -160,12 +186,23 @@ def check_call(ev, contract, func, args, check_frame=True):
             if isinstance(a, np.ndarray):
                 if not np.array_equal(a, b):
                     return 'fail', 'frame.%s' % p
+            elif isinstance(t, dict):
+                for fld in t['fields']:
+                    pf = '%s.%s' % (p, fld)
+                    if pf in contract.modifies or pf in getattr(contract, 'modifies_scalar', ()):
+                        continue
+                    x, y = getattr(a, fld, None), getattr(b, fld, None)
+                    same_ = np.array_equal(x, y) if isinstance(x, np.ndarray) else x == y
+                    if not same_:
+                        return 'fail', 'frame.%s' % pf
     if contract.returns is not None:
         descs = contract.returns if isinstance(contract.returns, (tuple, list)) else (contract.returns,)
         vals = result if isinstance(contract.returns, (tuple, list)) else (result,)
         for k, (d, v) in enumerate(zip(descs, vals)):
             if isinstance(d, str) and d.startswith('='):
-                if not (isinstance(v, np.ndarray) and np.shares_memory(v, call_args[names.index(d[1:])])):
+                tgt = call_args[names.index(d[1:])]
+                if not (v is tgt or (isinstance(v, np.ndarray) and isinstance(tgt, np.ndarray) and v.shape == tgt.shape
+                                     and (v.size == 0 or np.shares_memory(v, tgt)))):
                     return 'fail', 'post.result%d_is_%s' % (k, d[1:])
             elif isinstance(d, str) and d.endswith('fresh'):
                 for a in call_args:
@@ -189,10 +226,19 @@ def to_jsonable(v):
         return {k: to_jsonable(x) for k, x in v.items()}
     if isinstance(v, (list, tuple)):
         return [to_jsonable(x) for x in v]
+    if hasattr(v, '__dict__') and type(v).__module__.split('.')[0] in ('pyclifford', 'torchclifford'):
+        return {'__obj__': type(v).__name__, 'module': type(v).__module__, 'fields': {k: to_jsonable(x) for k, x in vars(v).items()}}
     return v
 
 
 def from_jsonable(v):
+    if isinstance(v, dict) and '__obj__' in v:
+        import importlib
+        cls = getattr(importlib.import_module(v['module']), v['__obj__'])
+        o = cls.__new__(cls)
+        for k, x in v['fields'].items():
+            setattr(o, k, from_jsonable(x))
+        return o
     if isinstance(v, dict) and '__ndarray__' in v:
         dt = v.get('dtype', 'int64')
         return np.array(v['__ndarray__'], dtype=dt if dt != 'object' else None)
